@@ -36,6 +36,7 @@ def run(ctx):
         laziness(ctx, crate, crs, tag)
         mech.availability_query(ctx, "laziness", crate, crs, tag)
         mech.hint_writers(ctx, "laziness", crate, tag)
+        mech.hint_arms(ctx, crate, crs, tag, rule="laziness")
         causality(ctx, crate, tag)
         new_solvables(ctx, crate, crs, tag)
     if ctx.tier == "thorough":
